@@ -18,11 +18,13 @@ type Fam = (&'static str, &'static str, Option<&'static [&'static str]>);
 fn families(property: &str) -> Vec<Fam> {
     const C02_CORE: &[&str] = &["routing", "flush", "probe", "panic", "spin", "livelock"];
     // "flush": data handed to a sink but not flushed while nothing will wake the router is work the router sleeps on
-    const C09_CORE: &[&str] = &["spin", "livelock", "sleep", "abandoned", "flush", "starved-after-failure"];
+    // "binding-stalled": a replier that is neither served nor told it was rejected while the router is parked
+    const C09_CORE: &[&str] = &["spin", "livelock", "sleep", "abandoned", "flush", "starved-after-failure", "binding-stalled"];
     // a peer whose registration was accepted (the server answered Ok) and then never reached the router
     const C11_STORM: &[&str] = &["abandoned", "panic", "spin", "livelock"];
     const C01_CORE: &[&str] = &["delivery", "flush", "probe", "panic"];
-    const C11_REBIND: &[&str] = &["binding", "panic", "spin", "livelock", "probe"];
+    const C11_REBIND: &[&str] = &["binding", "binding-stalled", "panic", "spin", "livelock", "probe"];
+    const C10_STORM: &[&str] = &["binding", "binding-stalled", "abandoned", "panic", "spin", "livelock", "probe"];
     match property {
         // the fault family is included: the statement is about subscribers that *stay healthy* while
         // others may fail, be evicted and be replaced by new registrations
@@ -34,7 +36,8 @@ fn families(property: &str) -> Vec<Fam> {
         "C08" => vec![("pubsub", "c08", None), ("reqrep", "c08", None), ("pubsub", "burst", None), ("reqrep", "burst", None)],
         // "all reachable router states" includes the states reached through faults and re-binding
         "C09" => vec![("pubsub", "c09", None), ("reqrep", "c09", None), ("pubsub", "c09", None), ("reqrep", "c09", None), ("pubsub", "c08", Some(C09_CORE)), ("reqrep", "c08", Some(C09_CORE)), ("reqrep", "c10", Some(C09_CORE)), ("pubsub", "burst", None), ("reqrep", "burst", None), ("pubsub", "firehose", None), ("reqrep", "firehose", None)],
-        "C10" => vec![("reqrep", "c10", None)],
+        // late repliers and successors that arrive in the middle of a registration storm
+        "C10" => vec![("reqrep", "c10", None), ("reqrep", "burst", Some(C10_STORM))],
         // "accepted and then silently abandoned" also covers repliers that race for a topic: each must end up
         // served or explicitly refused (binding oracle), whatever the other repliers' sinks do
         "C11" => vec![("pubsub", "c11", None), ("reqrep", "c11", None), ("reqrep", "c10", Some(C11_REBIND)), ("pubsub", "burst", Some(C11_STORM)), ("reqrep", "burst", Some(C11_STORM))],
@@ -48,9 +51,9 @@ fn excluded(property: &str) -> &'static [&'static str] {
     match property {
         // "starved-after-failure": healthy peers' input left unread right after other peers failed — C08's and C09's
         "C01" => &["sleep", "abandoned", "starved-after-failure"],
-        "C02" => &["sleep", "abandoned", "binding", "starved-after-failure"],
+        "C02" => &["sleep", "abandoned", "binding", "binding-stalled", "starved-after-failure"],
         "C08" => &["sleep", "abandoned"],
-        "C10" => &["sleep", "abandoned", "starved-after-failure"],
+        "C10" => &["sleep", "starved-after-failure"],
         "C11" => &["sleep", "starved-after-failure"],
         "C16" => &["sleep", "abandoned", "starved-after-failure"],
         _ => &[],
